@@ -434,8 +434,116 @@ if undone == 0:
     ck.inconclusive.append('U1 vacuous: rollback never returned')
 ck.functions += ['RelationalEngine::rollback', 'RelationalEngine::apply_undo_entry']
 
+# ------------------------------------------------------------------ U2: every matching row is locked before any is changed
+# RelationalEngine::tx_update / tx_delete from MIR; the transaction manager, the lock manager, the slab and the condition evaluator are
+# stubs: scan_all yields 1..2 rows with symbolic ids, whether a row matches is symbolic, try_lock records the rows it is asked for and
+# grants or refuses, record_undo / update_row / delete record their calls.
+ck.declare('U2_all_matching_rows_locked_before_any_change', 'tx_update / tx_delete on a table of 1..2 rows (ids symbolic, matching symbolic, no indexed columns, empty update map), lock grant symbolic',
+           'before the first undo record or slab write, successful try_lock calls cover every matching row; a refused try_lock is followed by no undo record and no slab write and the statement fails; '
+           'each slab write is preceded by its undo record; Ok(n) counts the matching rows')
+
+
+def _u2_scan_all(c):
+    rows = [Struct('(SlabRowId, Vec<SlabColumnValue>)', {0: Int(z3.BitVec(f'srow{i}', 64), False), 1: Seq('SlabColumnValue', [])}) for i in range(c.st.env['nrows'])]
+    return _ok_(Seq('(SlabRowId, Vec<SlabColumnValue>)', rows), 'Result<Vec<(SlabRowId, Vec<SlabColumnValue>)>, SlabError>')
+
+
+def _u2_to_row(c):
+    rid = c.args[1]
+    rv = rid.v if isinstance(rid, Int) else rid.fields[0].v
+    ks = [k for k in range(c.st.env['nrows']) if z3.is_true(z3.simplify(rv == z3.BitVec(f'srow{k}', 64)))]
+    if len(ks) != 1:
+        raise Unsupported('slab_row_to_engine_row on an unknown slab row')
+    return Struct('Row', {P.field('Row', 'id'): Int(z3.BitVec(f'rowid{ks[0]}', 64), False), P.field('Row', 'values'): Seq('(String, Value)', [])})
+
+
+def _u2_eval(c):
+    row = _deref(c.st, c.args[1])
+    return _ok_(z3.Bool('matches[' + str(row.fields[P.field('Row', 'id')].v) + ']'), 'Result<bool, RelationalError>')
+
+
+def _u2_try_lock(c):
+    ids = [x.fields[1].v for x in _deref(c.st, c.args[2]).items(c.st)]
+    if c.st.choose(2, 'try_lock ok/conflict') == 0:
+        c.st.notes.append(('try_lock', ids, True))
+        return _ok_(UNIT, 'Result<(), LockConflictInfo>')
+    c.st.notes.append(('try_lock', ids, False))
+    return _err_(c.st.fresh('LockConflictInfo', c.st.fresh_name('conflict')), 'Result<(), LockConflictInfo>')
+
+
+u2_saved = dict(ex.extra_models)
+ex.extra_models.update({
+    'TransactionManager::is_active': lambda c: z3.BoolVal(True),
+    'RelationalEngine::get_schema': lambda c: _ok_(Struct('Schema', {}, lazy='SCHEMA'), 'Result<Schema, RelationalError>'),
+    'RelationalEngine::get_table_indexes': lambda c: Seq('std::string::String', []), 'RelationalEngine::get_table_btree_indexes': lambda c: Seq('std::string::String', []),
+    'RelationalEngine::slab': lambda c: ref(Struct('RelationalSlab', {}, lazy='SLAB')), 'RelationalSlab::scan_all': _u2_scan_all,
+    'RelationalEngine::slab_row_to_engine_row': _u2_to_row, 'Condition::evaluate_with_depth': _u2_eval,
+    'TransactionManager::lock_manager': lambda c: ref(Struct('RowLockManager', {}, lazy='LM')), 'RowLockManager::try_lock': _u2_try_lock,
+    'TransactionManager::record_undo': rec('record_undo', UNIT),
+    'RelationalSlab::update_row': rec('slab_write', _ok_(UNIT, 'Result<(), SlabError>')), 'RelationalSlab::delete': rec('slab_write', _ok_(z3.BoolVal(True), 'Result<bool, SlabError>')),
+})
+u2_changed = u2_refused = 0
+try:
+    for fn_ in ('tx_update', 'tx_delete'):
+        for nrows in (1, 2):
+            st = ex.new_state()
+            st.env['nrows'] = nrows
+            rowids = [z3.BitVec(f'rowid{k}', 64) for k in range(nrows)]
+            if nrows > 1:
+                st.assume(z3.Distinct(*rowids))
+            args = [ref(Struct('RelationalEngine', {}, lazy='ENG')), Int(z3.BitVec('tx', 64), False), Str(z3.BitVec('table', 64)), st.fresh('Condition', 'cond')]
+            if fn_ == 'tx_update':
+                args.append(Map('std::string::String', 'Value', [], []))
+            st.frames = []
+            ex.call(st, 'RelationalEngine::' + fn_, args)
+            res = ex.run(st)
+            ck.note_path_problem(res, f'{fn_} rows={nrows}')
+            for r in res:
+                ev = [x for x in r.st.notes if x[0] in ('try_lock', 'record_undo', 'slab_write')]
+                wit = lambda m, fn_=fn_, nrows=nrows, ev=ev: {'statement': fn_, 'rows': nrows, 'events': [x[0] + ('' if x[0] != 'try_lock' else f'({len(x[1])} rows, {"granted" if x[2] else "refused"})') for x in ev]}
+                if r.status == 'panic':
+                    ck.require(ex, 'U2_all_matching_rows_locked_before_any_change', r.pc, None, z3.BoolVal(False), wit, lambda m, w: 'tx-statement-panic')
+                    continue
+                if r.status != 'return':
+                    continue
+                first_change = next((i for i, x in enumerate(ev) if x[0] != 'try_lock'), len(ev))
+                locked = [i_ for x in ev[:first_change] if x[0] == 'try_lock' and x[2] for i_ in x[1]]
+                refused_at = next((i for i, x in enumerate(ev) if x[0] == 'try_lock' and not x[2]), None)
+                matches = [z3.Bool('matches[' + str(rid) + ']') for rid in rowids]
+                cs = []
+                n_writes = sum(1 for x in ev if x[0] == 'slab_write')
+                if first_change < len(ev):
+                    u2_changed += 1
+                    cs += [z3.Implies(mt, z3.Or([l_ == rid for l_ in locked] + [z3.BoolVal(False)])) for mt, rid in zip(matches, rowids)]
+                if refused_at is not None:
+                    u2_refused += 1
+                    cs.append(z3.BoolVal(first_change == len(ev) and r.retval.variant == 'Err'))
+                undo_seen = writes_seen = 0
+                for x in ev:
+                    if x[0] == 'record_undo':
+                        undo_seen += 1
+                    elif x[0] == 'slab_write':
+                        writes_seen += 1
+                        cs.append(z3.BoolVal(undo_seen >= writes_seen))
+                if r.retval.variant == 'Ok':
+                    cnt = r.retval.fields[('Ok', 0)].v
+                    cs.append(cnt == sum([z3.If(mt, z3.BitVecVal(1, 64), z3.BitVecVal(0, 64)) for mt in matches], z3.BitVecVal(0, 64)))
+                    cs.append(cnt == z3.BitVecVal(n_writes, 64))
+                ck.require(ex, 'U2_all_matching_rows_locked_before_any_change', r.pc, None, z3.And(cs) if cs else z3.BoolVal(True), wit, lambda m, w: 'row-changed-before-all-locked')
+finally:
+    ex.extra_models.clear()
+    ex.extra_models.update(u2_saved)
+if u2_changed == 0 or u2_refused == 0:
+    ck.inconclusive.append(f'U2 vacuous: {u2_changed} paths changed rows, {u2_refused} paths were refused')
+ck.functions += ['RelationalEngine::tx_update', 'RelationalEngine::tx_delete']
+
 for v in ck.violations:
     w = v['witness']
+    if 'statement' in w:
+        rep = Replay.call({'op': 'relational_tx_refused', 'statement': w['statement']})
+        v['native'] = rep
+        v['replayed'] = rep.get('violates')
+        continue
     if 'undo' in w:
         rep = Replay.call({'op': 'relational_rollback', 'undo': w['undo']})
         v['native'] = rep
